@@ -10,4 +10,5 @@ Systems == { [vars |-> <<v1, v2>>, cons |-> cs] : v1 \in {v \in VarSet : v.lo = 
 Init == sys \in Systems
 Next == UNCHANGED sys
 Agree == SatDecl(sys) = SatAlg(sys)
+LoNeg == -1        \* TLC configuration files cannot contain negative numbers: substituted for Lo by MC_Csp.cfg
 =============================================================================
